@@ -67,6 +67,10 @@ class C18(Prop):
                                         f"world-writable script of a non-root owner was executed: {op} -> {g}", cops[:2] + [op], cgo[:2] + [g]))
                     if str(r.get("run", "")).startswith("panic"):
                         out.append(viol(f"the call panicked: {op} -> {g}", cops[:2] + [op], cgo[:2] + [g]))
+                elif op.startswith("ex.mix"):
+                    if r.get("marker") == "1" or r.get("accepted", "0") != "0":
+                        out.append(viol(f"while other goroutines were checking a root-owned script, a script owned by somebody else passed the check / "
+                                        f"was executed: {op} -> {g}", cops[:2] + [op], cgo[:2] + [g]))
                 elif op.startswith("ex.queue"):
                     if r.get("marker") == "1" or "ok:9" in g:
                         out.append(viol(f"a call that had to wait for another call on the same executable ran the file that had meanwhile been "
